@@ -188,9 +188,19 @@ type rig struct {
 	tagN  atomic.Int64
 }
 
-type clock struct{ n atomic.Int64 }
+// clock is the resource's clock: ticking (every reading differs) or frozen (a coarse clock: every write of the run
+// carries the same change time, so nothing may rely on change times to tell versions apart).
+type clock struct {
+	n      atomic.Int64
+	frozen bool
+}
 
-func (c *clock) Now() time.Time { return time.Unix(1000, c.n.Add(1)) }
+func (c *clock) Now() time.Time {
+	if c.frozen {
+		return time.Unix(1000, 0)
+	}
+	return time.Unix(1000, c.n.Add(1))
+}
 
 // lockedRand makes the harness's rng safe for the collection's id generation (the race on rng use inside the
 // library is C11's subject; here ids just have to be generated).
@@ -207,7 +217,7 @@ func (l *lockedRand) Read(p []byte) (int, error) {
 
 func newRig(model *sm.Model, init sm.State, rng *vk.Rand) *rig {
 	g := &rig{model: model, rec: &recorder{}, lower: model.Cfg.LowerIDs}
-	opts := append(model.ResourceOptions(), resource.WithClock(&clock{}), resource.WithRNG(&lockedRand{r: rng.Fork()}))
+	opts := append(model.ResourceOptions(), resource.WithClock(&clock{frozen: rng.Bool()}), resource.WithRNG(&lockedRand{r: rng.Fork()}))
 	if model.Cfg.IsValue {
 		if it, ok := init[""]; ok {
 			opts = append(opts, resource.WithInitialValue(proto.Clone(it.Msg)))
